@@ -31,6 +31,15 @@ static _Bool BLOCK_OK(unsigned long k, unsigned long nc);
 /* R: what other threads may do between two of this thread's atomic steps */
 void vx_yield(void) {
     struct PL a = g_pl; int ow = g_owner;
+#ifdef VX_RI
+    /* RandomInsertPiggyList: others count their own insertions and may install the block this thread needs (when nobody holds the lock
+       against them); an installed block is never replaced; the cell of THIS thread's index is not written by others (indices are unique) */
+    unsigned long ne = nondet_ulong(); __CPROVER_assume(ne >= g_ri.numElements); g_ri.numElements = ne;
+    if (g_owner == SELF) return;
+    g_owner = nondet_bool() ? 0 : 2;
+    if (in_bn < 64 && g_ri.blk[in_bn] == NULL && nondet_bool()) { unsigned long *b = malloc((BS << in_bn) * sizeof(unsigned long)); __CPROVER_assume(b != NULL); g_ri.blk[in_bn] = b; }
+    return;
+#endif
     unsigned long ms = nondet_ulong(), nc = nondet_ulong(), cs = nondet_ulong(), as = nondet_ulong(); unsigned long *nb = g_pl.blk[in_k < 64 ? in_k : 0];
     __CPROVER_assume(ms >= a.m_size && ms < (1ul << 31) - BS - 1);     /* sizes only grow (bounded as in the sequential contract) */
     g_pl.m_size = ms;
@@ -45,7 +54,9 @@ void vx_yield(void) {
 void vx_lock(void) { __CPROVER_assert(g_owner != SELF, "lock: not re-entered"); vx_yield(); __CPROVER_assume(g_owner == 0); g_owner = SELF; }
 void vx_unlock(void) {
     __CPROVER_assert(g_owner == SELF, "unlock: held");
+#ifndef VX_RI
     __CPROVER_assert(INV_PL(), "G.unlock: the growth lock is released only in a quiescent state (INV_PL)");
+#endif
     g_owner = 0;
 }
 void vx_step(void *obj, int kind, unsigned long o, unsigned long n) {
@@ -59,6 +70,15 @@ void vx_step(void *obj, int kind, unsigned long o, unsigned long n) {
             __CPROVER_assert(n > o, "G.grow: growth only");
             __CPROVER_assert(WINV(), "G.order: every intermediate state visible to lock-free readers satisfies WINV (block stored before the counters cover it)");
             __CPROVER_assert(BLOCK_OK(in_k, g_pl.num_containers), "G.order: a block counted by num_containers is allocated");
+        }
+    } else if (obj == (void *)&g_ri.numElements) {
+        __CPROVER_assert(n == o || n == o + 1, "G.count: numElements changes only by +1");
+        if (n != o && g_own_adds < 3) g_own_adds++;
+    } else if (in_bn < 64 && obj == (void *)&g_ri.blk[in_bn]) {
+        if (n != o) {
+            __CPROVER_assert(o == 0, "G.block: a block pointer is written only while it is null (an allocated block is never replaced)");
+            __CPROVER_assert(g_owner == SELF, "G.block: a block is installed only under the lock");
+            __CPROVER_assert(n != 0, "G.block: a block pointer never goes back to null");
         }
     } else __CPROVER_assert(0, "atomic operation on an unexpected object");
 }
@@ -138,6 +158,18 @@ __CPROVER_ensures(__CPROVER_return_value == g_ri.blk[in_bn] + (index + BS - (BS 
 __CPROVER_ensures(index + BS - (BS << in_bn) < (BS << in_bn))
 __CPROVER_assigns();
 
+#if defined(VX_CONC) && defined(VX_RI)
+/* insertAt under interference: afterwards the block is installed (by this thread or another, never replaced), this thread's cell holds
+   the value (cells of distinct indices are distinct: lemma_injective), this thread counted exactly one element */
+void h_ri_insertAt(void *p, unsigned long index, unsigned long v)
+__CPROVER_requires(p == (void *)&g_ri && g_ri.BLOCKBITS == BB && g_ri.INITIALBLOCKSIZE == BS && index + BS < (1ul << 31) && g_owner != SELF && g_own_adds == 0)
+__CPROVER_requires(in_bn < 64 && DECOMP(index, in_bn) && g_blk0_k == g_ri.blk[in_bn])
+__CPROVER_requires(g_ri.blk[in_bn] == NULL || (__CPROVER_r_ok(g_ri.blk[in_bn], (BS << in_bn) * sizeof(unsigned long)) && __CPROVER_w_ok(g_ri.blk[in_bn], (BS << in_bn) * sizeof(unsigned long))))
+__CPROVER_ensures(g_ri.blk[in_bn] != NULL && g_ri.blk[in_bn][index + BS - (BS << in_bn)] == v)
+__CPROVER_ensures(g_own_adds == 1 && g_owner != SELF)
+__CPROVER_ensures(g_blk0_k != NULL ==> g_ri.blk[in_bn] == g_blk0_k)
+__CPROVER_assigns(g_ri.numElements, g_ri.blk[in_bn], g_owner, g_own_adds; g_ri.blk[in_bn] != NULL: __CPROVER_object_whole(g_ri.blk[in_bn]));
+#else
 void h_ri_insertAt(void *p, unsigned long index, unsigned long v)
 __CPROVER_requires(p == (void *)&g_ri && g_ri.BLOCKBITS == BB && g_ri.INITIALBLOCKSIZE == BS && index + BS < (1ul << 31) && !(g_owner == SELF))
 __CPROVER_requires(in_bn < 64 && DECOMP(index, in_bn) && g_size0 == g_ri.numElements)
@@ -146,6 +178,8 @@ __CPROVER_ensures(g_ri.blk[in_bn] != NULL && g_ri.blk[in_bn][index + BS - (BS <<
 __CPROVER_ensures(g_ri.numElements == g_size0 + 1 && !(g_owner == SELF))
 __CPROVER_ensures(__CPROVER_old(g_ri.blk[in_bn]) != NULL ==> g_ri.blk[in_bn] == __CPROVER_old(g_ri.blk[in_bn]))
 __CPROVER_assigns(g_ri.numElements, g_ri.blk[in_bn], g_owner; g_ri.blk[in_bn] != NULL: __CPROVER_object_whole(g_ri.blk[in_bn]));
+
+#endif
 
 unsigned long h_off_pl(int k); unsigned long h_off_ri(int k);
 
@@ -238,6 +272,15 @@ static void any_ri(void) {
 }
 void harness_ri_get(void) { any_ri(); h_ri_get(&g_ri, in_index); CANARY; }
 void harness_ri_insertAt(void) { any_ri(); h_ri_insertAt(&g_ri, in_index, in_val); CANARY; }
+#if defined(VX_CONC) && defined(VX_RI)
+void harness_ri_insertAt_conc(void) {
+    any_ri(); g_owner = nondet_bool() ? 0 : 2; g_own_adds = 0;
+    __CPROVER_assume(in_bn < 64);
+    if (g_ri.blk[in_bn] != NULL) { g_ri.blk[in_bn] = malloc((BS << (in_bn <= MAXNC ? in_bn : 0)) * sizeof(unsigned long)); __CPROVER_assume(g_ri.blk[in_bn] != NULL); }
+    g_blk0_k = g_ri.blk[in_bn];
+    h_ri_insertAt(&g_ri, in_index, in_val); CANARY;
+}
+#endif
 
 void harness_layout(void) {
     __CPROVER_assert(h_off_pl(0) == offsetof(struct PL, BLOCKBITS) && h_off_pl(1) == offsetof(struct PL, BLOCKSIZE) &&
